@@ -1031,8 +1031,9 @@ impl<'a> Iterator for Curve2Iterator<'a> {
 }
 
 fn resample_by_max_spacing(curve: &Curve2, max_spacing: f64) -> Result<Curve2> {
+    // n intervals no longer than max_spacing need n + 1 points
     let n = (curve.length() / max_spacing).ceil() as usize;
-    resample_by_count(curve, n)
+    resample_by_count(curve, n + 1)
 }
 
 fn resample_by_spacing(curve: &Curve2, spacing: f64) -> Result<Curve2> {
